@@ -195,6 +195,10 @@ fn prop(case: &Case, st: &mut Stats) -> Verdict {
     let mut multi_proposed = false;
     let mut remainder_boundary = false;
     let mut quirk_blocks = 0;
+    // capacity that legitimately never reaches a cell, cumulated per branch: the proposer share the
+    // node denies for target block 1 (known finding, tolerated) and rewards too small to create
+    // the cellbase output (the protocol drops them)
+    let mut unpaid: BTreeMap<[u8; 32], i128> = BTreeMap::new();
     for h in &built.blocks {
         let b = tree.get(h);
         let parent = &b.parent;
@@ -241,6 +245,7 @@ fn prop(case: &Case, st: &mut Stats) -> Verdict {
             }
         }
         // (2) forward ledger = model reward = cellbase
+        let mut unpaid_here: i128 = 0;
         let paid: u64 = b.block.transactions()[0].outputs_capacity().map(|c| c.as_u64()).unwrap_or(0);
         match (ledger_reward(tree, parent), tree.reward_for_child_of(parent)) {
             (None, None) => {
@@ -260,12 +265,16 @@ fn prop(case: &Case, st: &mut Stats) -> Verdict {
                 let quirk = r.proposer != r.proposer_node_quirk;
                 if quirk {
                     quirk_blocks += 1;
+                    unpaid_here += r.proposer as i128 - r.proposer_node_quirk as i128;
                 }
                 let want = base + committer + if quirk { r.proposer_node_quirk } else { proposer };
                 let lack = occupied_shannons(
                     &CellOutput::new_builder().lock(r.lock.clone()).build(),
                     0,
                 ) > want as u128;
+                if lack {
+                    unpaid_here += want as i128;
+                }
                 if !lack && paid != want {
                     vfail!(
                         "ledger:cellbase-differs-from-ledger",
@@ -288,13 +297,15 @@ fn prop(case: &Case, st: &mut Stats) -> Verdict {
             vfail!("dao:c-growth", "block #{}: dC {} vs issuance {}", b.number, b.dao.c - pd.c, b.issuance_g);
         }
         // (4) conservation
+        let unpaid_total = unpaid.get(&h32(parent)).copied().unwrap_or(0) + unpaid_here;
+        unpaid.insert(h32(h), unpaid_total);
         let k = conservation(tree, h);
-        if k != k0 {
+        if k != k0 + unpaid_total {
             vfail!(
                 "conservation:capacity-appeared-or-vanished",
-                "block #{}: C - S - live - pending = {k}, at genesis {k0} (difference {})",
+                "block #{}: C - S - live - pending = {k}, at genesis {k0}, legitimately unpaid so far {unpaid_total} (difference {})",
                 b.number,
-                k - k0
+                k - k0 - unpaid_total
             );
         }
         // labels for the non-trivial rule
